@@ -18,6 +18,15 @@ def c03_binding_grid():
             progs.append(("arity-spread", [Asg("f", Fn(ps, body)), Asg("xs", Arr(*args)), Call(Id("f"), [Spread(Id("xs"))])]))
             if na >= 1:
                 progs.append(("arity-method", [Asg("o", Obj(("m", Fn(ps, body)))), PCall(Id("o"), "m", args[1:])]))
+    for na in range(8, 14):          # many positional arguments: \N for every N received, \0, beyond the declared parameters
+        for np_ in (0, 2, na):
+            ps = [f"p{k}" for k in range(np_)]
+            body = [Arr(*[Argv(f"\\{k}") for k in range(1, na + 1)], Argv("\\0"), Argv("\\"))]
+            args = [Int(100 + k) for k in range(na)]
+            progs.append(("arity-many", [Asg("f", Fn(ps, body)), Call(Id("f"), args)]))
+            progs.append(("arity-many-spread", [Asg("f", Fn(ps, body)), Asg("xs", Arr(*args[2:])), Call(Id("f"), args[:2] + [Spread(Id("xs"))])]))
+            progs.append(("arity-many-nested", [Asg("outer", Fn(["a"], [Asg("inner", Fn(ps, body)), Arr(Call(Id("inner"), args), Argv("\\0"))])),
+                                                Call(Id("outer"), [Int(k) for k in range(1, na + 2)])]))
     kparams = [[], [("k", Int(7))], [("k", Int(7)), ("j", Str("d"))]]
     passed = [[], [("k", Int(1))], [("j", Str("x"))], [("k", Int(1)), ("j", Str("x"))], [("z", Int(3))], [("j", Str("x")), ("k", Int(1))],
               [("k", Int(1)), ("k", Int(2))]]
@@ -85,6 +94,14 @@ def c03_scope_family():
                                          ("f", Fn(["s", "x"], [Probe(2), Arr(PCall(Id("s"), "k"), Id("x"), Argv("\\0"))])))),
                                Say(PCall(Id("o"), "m", [Int(1)])), Say(PCall(Id("o"), "f", [Int(3)])),
                                Say(Call(Idx(Id("o"), Str("m")), [Id("o"), Int(4)])), Say(PCall(Id("o"), "k", [Int(9)]))]))
+    # the receiver is the first argument of every property call, also for each element of a list chain, whatever the number of arguments
+    for nargs in range(1, 10):
+        params = [f"a{k}" for k in range(nargs)]
+        meth = Fn(["s"] + params, [Probe(1), Arr(PCall(Id("s"), "v"), *[Id(x) for x in params], Argv("\\1"), Argv("\\0"))])
+        body = [Asg("mkm", Fn(["v"], [Obj(("v", Id("v")), ("um", meth))])), Asg("xs", Arr(*[Call(Id("mkm"), [Int(k)]) for k in (1, 2, 3)])),
+                Say(PCall(Id("xs"), "um", [Int(10 * (k + 1)) for k in range(nargs)], main="@")),
+                Say(PCall(Call(Id("mkm"), [Int(9)]), "um", [Int(10 * (k + 1)) for k in range(nargs)]))]
+        progs.append(("receiver-chain-args", body))
     progs.append(("zero-arg-argv", [Asg("outer", Fn(["a", "b"], [Asg("cnt", Fn([], [Argv("\\0")])), Arr(Call(Id("cnt")), Argv("\\0"))])),
                                     Call(Id("outer"), [Int(1), Int(2)])]))
     progs.append(("zero-arg-argv-method", [Asg("o", Obj(("m", Fn(["x"], [Asg("cnt", Fn([], [PCall(Argv("\\0"), "len")])), Call(Id("cnt"))], method=True)))),
@@ -193,6 +210,14 @@ def c15_stmt(kind, k, ctx):
         return Id("undefinedname")
     if kind == "call-stopiter":
         return Call(Id("gstop"))
+    if kind == "defer-flag":            # the guard is evaluated when the statement is reached, not at exit
+        return Jump("defer", Say(Int(100 + k)), Id("flag"))
+    if kind == "defer-notflag":
+        return Jump("defer", Say(Int(100 + k)), Pre("!", Id("flag")))
+    if kind == "flag-off":
+        return Asg("flag", Bool(False))
+    if kind == "defer-sayguard":
+        return Jump("defer", Say(Int(100 + k)), Say(Bool(True)))
     if kind == "call-ok":
         return Call(Id("gok"))
     if kind == "call-raise":
@@ -201,11 +226,11 @@ def c15_stmt(kind, k, ctx):
 
 
 C15_KINDS = ["mark", "defer", "defer-t", "defer-f", "defer-raise", "return", "return-t", "return-f", "raise", "raise-stopiter", "raise-div0",
-             "raise-name", "call-ok", "call-raise", "call-stopiter"]
+             "raise-name", "call-ok", "call-raise", "call-stopiter", "defer-flag", "defer-notflag", "flag-off", "defer-sayguard"]
 
 
 def c15_program(kinds, form):
-    body = [c15_stmt(kd, i + 1, form) for i, kd in enumerate(kinds)] + [Int(99)]
+    body = [Asg("flag", Bool(True))] + [c15_stmt(kd, i + 1, form) for i, kd in enumerate(kinds)] + [Int(99)]
     pre = [Asg("gok", Fn([], [Jump("defer", Say(Int(201))), Say(Int(202)), Jump("return", Int(203)), Say(Int(204))])),
            Asg("gbad", Fn([], [Jump("defer", Say(Int(301))), Jump("defer", Say(Int(302)), Bool(True)), Raise("Err", "nested"), Say(Int(303))])),
            Asg("gstop", Fn([], [Jump("defer", Say(Int(501))), Raise("StopIterErr", "inner stop"), Say(Int(502))]))]
@@ -288,6 +313,18 @@ HOSTS += [
     ("chain-list-prop", 3, lambda c: ([Asg("o", Obj(("um", Fn(["x"], _sel(c), method=True))))],
                                       LCall(Arr(Int(1), Int(2), Int(3)), Fn(["x"], [PCall(Id("o"), "um", [Id("x")])]), main="@"))),
     ("chain-arg", 2, lambda c: ([], LCall(Arr(c[0]), Fn(["x"], [Id("x")]), main="@", carg=Arr(c[1])))),
+    ("chain-arg-var-list", 2, lambda c: ([Asg("g", Fn(["x"], [Id("x")]))], VCall(Arr(c[0]), "g", main="@", carg=Arr(c[1])))),
+    ("chain-arg-var-reduce", 2, lambda c: ([Asg("g", Fn(["acc", "x"], [Arr(Id("acc"), Id("x"))]))], VCall(Arr(c[0]), "g", main="$", carg=c[1]))),
+    ("chain-arg-var-scalar", 2, lambda c: ([Asg("g", Fn(["x"], [Id("x")]))], VCall(c[0], "g", main=".", carg=c[1]))),
+    ("chain-arg-lit-reduce", 2, lambda c: ([], LCall(Arr(c[0]), Fn(["acc", "x"], [Arr(Id("acc"), Id("x"))]), main="$", carg=c[1]))),
+    ("chain-arg-prop-args", 3, lambda c: ([Asg("o", Obj(("um", Fn(["x", "y"], [Arr(Id("x"), Id("y"))], method=True))))],
+                                          PCall(Arr(Inf("&&", c[0], Id("o"))), "um", [c[2], Int(5)], main="@", carg=Arr(c[1])))),
+    ("chain-arg-prop-reduce-args", 3, lambda c: ([], PCall(Arr(c[0]), "+", [], main="$", carg=c[1]) if False else
+                                                 PCall(Arr(Int(1), Int(2)), "+", [Spread(Arr())] if False else [], main="$", carg=Inf("+", c[0], Inf("+", c[1], c[2]))))),
+    ("chain-arg-prop-scalar-args", 3, lambda c: ([Asg("o", Obj(("um", Fn(["x"], [Id("x")], method=True))))],
+                                                 PCall(Inf("&&", c[0], Id("o")), "um", [c[2]], main=".", carg=c[1]))),
+    ("estr5", 5, lambda c: ([], EStr("a", c[0], "b", c[1], "c", c[2], "d", c[3], "e", c[4], "f"))),
+    ("estr4", 4, lambda c: ([], EStr(c[0], c[1], "-", c[2], c[3]))),
 ]
 RAISERS = [("Err", lambda: Raise("Err", "boom")), ("StopIterErr", lambda: Raise("StopIterErr", "mine")), ("div0", lambda: Inf("/", Int(1), Int(0))), ("name", lambda: Id("undefinedname")),
            ("noprop", lambda: PCall(Int(1), "nosuchprop"))]
@@ -405,6 +442,39 @@ def c04_family(thorough):
                 progs.append((key + ":prop", C04_PRELUDE + [Say(PCall(recv, "ustep", [], main="$", add=add, carg=carg)), Say(Str("after"))]))
                 progs.append((key + ":lit", C04_PRELUDE + [Say(LCall(recv, rlit, main="$", add=add, carg=carg)), Say(Str("after"))]))
                 progs.append((key + ":var", C04_PRELUDE + [Asg("g", rlit), Say(VCall(recv, "g", main="$", add=add, carg=carg)), Say(Str("after"))]))
+    # methods called with 2..7 positional arguments in list chains over several elements: every element gets the same arguments
+    for nargs in range(2, 8):
+        params = [f"a{k}" for k in range(nargs)]
+        meth = Fn(params, [Arr(PCall(Id("self"), "v"), *[Id(x) for x in params], Argv("\\0"))], method=True)
+        mkm = Asg("mkm", Fn(["v"], [Obj(("v", Id("v")), ("umany", meth))]))
+        recv = Arr(*[Call(Id("mkm"), [Int(k)]) for k in (1, 2, 3)])
+        args = [Int(10 * (k + 1)) for k in range(nargs)]
+        lit = Fn(["x"], [PCall(Id("x"), "umany", args)])
+        for add in adds["@"]:
+            key = f"list:{add}@:many{nargs}:-:umany"
+            progs.append((key + ":prop", [mkm, Say(PCall(recv, "umany", args, main="@", add=add))]))
+            progs.append((key + ":lit", [mkm, Say(LCall(recv, lit, main="@", add=add))]))
+    # reduce chains whose property call has explicit arguments besides the element
+    for nargs in (1, 2, 3):
+        params = ["x"] + [f"a{k}" for k in range(nargs)]
+        step = Fn(params, [Say(Arr(PCall(Id("self"), "t"), *[Id(x) for x in params])),
+                           Obj(("t", Inf("+", PCall(Id("self"), "t"), Id("x"))), ("ustep", Idx(Id("self"), Str("ustep"))))], method=True)
+        acc = Asg("acc1", Obj(("t", Int(0)), ("ustep", step)))
+        args = [Int(100 * (k + 1)) for k in range(nargs)]
+        rl = Fn(["acc", "x"], [PCall(Id("acc"), "ustep", [Id("x")] + args)])
+        for add in adds["$"]:
+            for els in ((1,), (1, 2), (1, 2, 3)):
+                recv = Arr(*[Int(e) for e in els])
+                key = f"reduce:{add}$:args{nargs}x{len(els)}:acc1:ustep"
+                progs.append((key + ":prop", [acc, Say(PCall(recv, "ustep", args, main="$", add=add, carg=Id("acc1")))]))
+                progs.append((key + ":lit", [acc, Say(LCall(recv, rl, main="$", add=add, carg=Id("acc1")))]))
+    # a reducer with one parameter receives (and may keep) the [acc, elem] pair
+    for add in adds["$"]:
+        keep = Fn(["p"], [Id("p")])
+        progs.append((f"reduce:{add}$:keep-pair:0:pair:lit", [Say(LCall(Arr(Int(1), Int(2), Int(3)), keep, main="$", add=add, carg=Int(0)))]))
+        progs.append((f"reduce:{add}$:keep-pair:0:pair:var", [Asg("g", keep), Say(VCall(Arr(Int(1), Int(2), Int(3)), "g", main="$", add=add, carg=Int(0)))]))
+        progs.append((f"reduce:{add}$:keep-pair-closure:0:pair:lit", [Asg("c", LCall(Arr(Int(1), Int(2), Int(3)), Fn(["p"], [Fn([], [Id("p")])]), main="$", add=add, carg=Nil())),
+                                                                    Say(Call(Id("c")))]))
     # other receivers: int, range, obj; operator props with an argument
     plus = Fn(["x"], [PCall(Id("x"), "+", [Int(1)])])
     for rtag, recv in (("int3", Int(3)), ("int0", Int(0)), ("range", Range(Int(2), Int(5), Nil())), ("range-step", Range(Int(7), Int(1), Int(-2))),
